@@ -17,7 +17,7 @@ class Check(differential.DifferentialCheck):
             'PostgreSQL SSLRequest, LDAP StartTLS request/response (every result code; other message ids, responseName, '
             'diagnostic text for the parse direction), built through the library constructors and the reference encoders; '
             'distinct = SHA-1 of (class, reference bytes); non-trivial = every case')
-    BLOCKS = {'quick': 60, 'thorough': 1600}
+    BLOCKS = {'quick': 60, 'thorough': 16000}
     PER_BLOCK = 60
     ASSUMPTIONS = ('vmon/ref/opp.py is my reading of the MySQL protocol documentation, RFC 1006, X.224/ISO 8073, MS-RDPBCGR, the '
                    'OpenVPN protocol description, the PostgreSQL protocol and RFC 4511', )
